@@ -1,4 +1,5 @@
 import BeffVerif.Props.C08
+import BeffVerif.Props.C08Decls
 open BeffVerif.C08
 #print axioms foldl_perm
 #print axioms spec_union_perm
@@ -10,3 +11,6 @@ open BeffVerif.C08
 #print axioms spec_readonly
 #print axioms anyOf_order_irrelevant
 #print axioms named_intersection_member_not_merged
+#print axioms mem_congr
+#print axioms find_perm
+#print axioms spec_decls_perm
